@@ -24,6 +24,111 @@ def varint(n):
             return bytes(out)
 
 
+def varint_ol(n, extra):
+    """varint of n, `extra` redundant continuation bytes appended (non-minimal, still valid while <= 10 bytes)"""
+    v = bytearray(varint(n))
+    extra = min(extra, 10 - len(v))
+    if extra > 0:
+        v[-1] |= 0x80
+        v += b"\x80" * (extra - 1) + b"\x00"
+    return bytes(v)
+
+
+# registered message types (linked into the Go test binaries by the harness imports) and their fields:
+# number -> kind: 's' string, 'y' bytes, 'v' varint, 'b' bool, 'p' packed varints, 'f' fixed64, 'm' map<string,string>, 'S' Struct fields
+SCHEMAS = {
+    "connectrpc.conformance.v1.Header": {1: "s", 2: "rs"},
+    "connectrpc.conformance.v1.Features": {1: "p", 2: "p", 3: "p", 4: "p", 5: "p"},
+    "connectrpc.conformance.v1.RawHTTPResponse": {1: "v"},
+    "google.protobuf.StringValue": {1: "s"},
+    "google.protobuf.BytesValue": {1: "y"},
+    "google.protobuf.Int64Value": {1: "v"},
+    "google.protobuf.UInt32Value": {1: "v"},
+    "google.protobuf.BoolValue": {1: "b"},
+    "google.protobuf.DoubleValue": {1: "f"},
+    "google.protobuf.Duration": {1: "v", 2: "v"},
+    "google.protobuf.Struct": {1: "S"},
+    "google.rpc.ErrorInfo": {1: "s", 2: "s", 3: "m"},
+    "google.rpc.RetryInfo": {},
+}
+
+
+def noncanonical(rng, ty=None):
+    """(type name, bytes): a VALID encoding of a registered type that no marshaller would emit: fields out of order, default values
+    written out, a singular field twice (last wins), packed fields unpacked or split, unknown fields, over-long varints"""
+    ty = ty or rng.choice(sorted(SCHEMAS))
+    ol = lambda: rng.choice([0, 0, 0, 1, 2, 4]) if rng.random() < 0.5 else 0
+    word = lambda: bytes(rng.choice(b"abkXY-/ ") for _ in range(rng.choice([0, 0, 1, 2, 5])))
+
+    def fld(num, wt, body):
+        return varint_ol(num << 3 | wt, ol()) + body
+
+    def ld(num, body):
+        return fld(num, 2, varint_ol(len(body), ol()) + body)
+
+    def vint(num, zero_ok=True):
+        n = rng.choice(([0] if zero_ok else []) + [1, 2, 3, 127, 128, 300, 2 ** 31, 2 ** 63])
+        return fld(num, 0, varint_ol(n, ol()))
+
+    def entry(val):
+        kv = [ld(1, word()), val]
+        if rng.random() < 0.4:
+            kv.reverse()
+        if rng.random() < 0.2:
+            kv.insert(0, ld(1, b"overridden"))
+        return b"".join(kv)
+
+    def svalue():
+        k = rng.randrange(4)
+        if k == 0:
+            return ld(3, word())                                  # string_value
+        if k == 1:
+            return fld(4, 0, varint_ol(rng.choice([0, 1, 7]), ol()))   # bool_value, any non-zero is true
+        if k == 2:
+            return fld(2, 1, bytes(rng.randrange(256) for _ in range(7)) + b"\x3f")   # number_value
+        return fld(1, 0, varint_ol(0, ol()))                      # null_value
+
+    fields = []
+    for num, kind in SCHEMAS[ty].items():
+        r = rng.random()
+        if kind in "sy":
+            if r < 0.7:
+                fields.append(ld(num, word() if r > 0.2 else b""))          # explicit empty = default written out
+                if rng.random() < 0.2:
+                    fields.insert(0, ld(num, b"first"))                     # occurs twice, last wins
+        elif kind == "rs":
+            fields += [ld(num, word()) for _ in range(rng.randint(0, 3))]
+        elif kind == "v":
+            if r < 0.8:
+                fields.append(vint(num))
+        elif kind == "b":
+            if r < 0.8:
+                fields.append(fld(num, 0, varint_ol(rng.choice([0, 1, 1, 2, 255]), ol())))
+        elif kind == "f":
+            if r < 0.8:
+                fields.append(fld(num, 1, bytes(8) if r < 0.3 else bytes(rng.randrange(256) for _ in range(7)) + b"\x40"))
+        elif kind == "p":
+            if r < 0.6:
+                vals = [rng.randint(0, 3) for _ in range(rng.randint(0, 4))]
+                k = rng.random()
+                if k < 0.35:                                              # unpacked
+                    fields += [fld(num, 0, varint_ol(v, ol())) for v in vals]
+                elif k < 0.7 and len(vals) > 1:                           # packed in two runs
+                    c = rng.randint(1, len(vals) - 1)
+                    fields += [ld(num, b"".join(varint_ol(v, ol()) for v in vals[:c])), ld(num, b"".join(varint(v) for v in vals[c:]))]
+                else:
+                    fields.append(ld(num, b"".join(varint_ol(v, ol()) for v in vals)))
+        elif kind == "m":
+            fields += [ld(num, entry(ld(2, word()))) for _ in range(rng.randint(0, 3))]
+        elif kind == "S":
+            fields += [ld(num, entry(ld(2, svalue()))) for _ in range(rng.randint(0, 3))]
+    if rng.random() < 0.4:
+        fields.append(unknown_field(rng))
+    if rng.random() < 0.7:
+        rng.shuffle(fields)
+    return ty, b"".join(fields)
+
+
 def unknown_field(rng):
     """well-formed protobuf field with a number no conformance message uses"""
     num = rng.choice([100, 1000, 2047, 19000 - 1, 536870911])
@@ -48,6 +153,7 @@ class C18(Prop):
     models = ("C18_Model",)
     packages = {"int": "internal", "gu": "internal/grpcutil"}
     kinds = {"c18.err_connect": "int", "c18.err_go": "int", "c18.http": "int", "c18.codec_rt": "int", "c18.codec_unknown": "int",
+             "c18.codec_hist": "int", "c18.alias_http": "int", "c18.alias_md": "gu",
              "c18.err_grpc": "gu", "c18.md": "gu", "c18.md_back": "gu", "c18.outgoing": "gu", "c18.escape": "gu",
              "c18.percent": "gu", "c18.unpercent": "gu", "c18.b64": "gu"}
     rule = ("errors: codes 1..16 (+0, 17, 18, 100, -1, int32 bounds) x 9 message classes (unset, empty, ASCII, '%', non-ASCII, invalid UTF-8, "
@@ -99,13 +205,21 @@ class C18(Prop):
                 "c18.http": "AddHeaders/AddTrailers/ConvertToProtoHeader", "c18.escape": "ShouldEscapeByteInMessage",
                 "c18.percent": "PercentEncodeMessage round trip", "c18.unpercent": "percent decoder", "c18.b64": "base64 oracle instance",
                 "c18.codec_rt": "strict codec: Unmarshal(Marshal(m)) must give m (format 0=binary 1=JSON)",
-                "c18.codec_unknown": "strict codec must reject unknown fields at any depth"}.get(case[0], "") + \
+                "c18.codec_unknown": "strict codec must reject unknown fields at any depth",
+                "c18.codec_hist": "strict codec: a message changed in place after an earlier Size/Marshal must encode as its current value",
+                "c18.alias_http": "AddHeaders/AddTrailers/ConvertToProtoHeader: a destination changed when the source or a sibling destination was used further",
+                "c18.alias_md": "metadata conversions: a destination changed when the source or a sibling destination was used further"}.get(case[0], "") + \
             ": implementation differs from the proved lossless model"
 
     # ---------------------------------------------------------------- generators
     def gen_details(self, rng, n):
         out = []
         for _ in range(n):
+            if rng.random() < 0.45:
+                # registered type, valid but non-canonical bytes: must come back byte for byte, not re-encoded
+                ty, val = noncanonical(rng)
+                out.append([rng.choice(URL_PREFIXES) + ty, val])
+                continue
             url = rng.choice(URL_PREFIXES) + rng.choice(TYPES)
             val = bytes(rng.randrange(256) for _ in range(rng.choice([0, 1, 3, 12])))
             out.append([url, val])
@@ -188,6 +302,36 @@ class C18(Prop):
             subs = [raw()] + [leaf() for _ in range(rng.randint(0, 2))]
         return [word(), unk(), subs]
 
+    def mutate_tree(self, rng, t, json):
+        """a copy of tree t changed in ONE nested place: a deeper message's scalar, a list grown or shrunk, a sub-tree replaced"""
+        t = [t[0], t[1], [self.mutate_tree(rng, s, json) if False else s for s in t[2]]]
+        path = t
+        while path[2] and rng.random() < 0.8:
+            i = rng.randrange(len(path[2]))
+            path[2] = list(path[2])
+            path[2][i] = [path[2][i][0], path[2][i][1], list(path[2][i][2])]
+            path = path[2][i]
+        k = rng.random()
+        if k < 0.5:
+            path[0] = path[0] + "".join(rng.choice("abcXYZ") for _ in range(rng.choice([1, 3, 40, 200])))
+        elif k < 0.65:
+            path[0] = ""
+        elif k < 0.85 and path[2]:
+            path[2] = path[2] + [path[2][-1]]
+        elif path[2]:
+            path[2] = path[2][:-1]
+        else:
+            path[0] = "changed"
+        return t
+
+    def gen_history(self, rng, json):
+        t = self.gen_tree(rng, json, 0.0)
+        steps = [[rng.choice([0, 0, 1, 2]), t]]
+        for _ in range(rng.randint(1, 4)):
+            t = self.mutate_tree(rng, t, json) if rng.random() < 0.85 else self.gen_tree(rng, json, 0.0)
+            steps.append([rng.choice([0, 0, 0, 1, 2]), t])
+        return steps
+
     def generate(self, rng, tier):
         quick = tier == "quick"
         # ---- errors: structured product, then random
@@ -260,6 +404,16 @@ class C18(Prop):
         for _ in range(1500 if quick else 40000):
             for codec in (0, 1):
                 yield ["c18.codec_unknown", codec, self.gen_tree(rng, codec == 1, rng.choice([0.0, 0.1, 0.1, 0.3]))]
+        # ---- codec histories: one message object changed in place (nested message, list element, map value) between encodings
+        for _ in range(1500 if quick else 30000):
+            for codec in (0, 1):
+                yield ["c18.codec_hist", codec, rng.randint(0, 1), self.gen_history(rng, codec == 1)]
+        # ---- the converted structures are used further: source scribbled, sibling destination appended to
+        for _ in range(3000 if quick else 60000):
+            hs = self.gen_headers(rng, http_names)
+            yield ["c18.alias_http", rng.randint(0, 2), hs, rng.choice([b"first-extra", b"", b"1"]), rng.choice([b"second-extra", b"2"])]
+            hs = self.gen_headers(rng)
+            yield ["c18.alias_md", rng.randint(3, 4), hs, rng.choice([b"first-extra", b"", b"AQ"]), rng.choice([b"second-extra", b"Ag"])]
 
 
 PROP = C18()
